@@ -101,6 +101,11 @@ func worldClaims(class string) []claim {
 		{"p2", "add", "camliMember", "@p1", 23},
 		{"p2", "add", "camliMember", "@p3", 24},
 		{"p2", "set", "title", "two", 25},
+		// two edges p2 -> p4, the first one dead (member added, then removed; later a path):
+		// relation matchers must not stop at the first, dead edge of a (parent, child) pair
+		{"p2", "add", "camliMember", "@p4", 28},
+		{"p2", "del", "camliMember", "@p4", 29},
+		{"p2", "set", "camliPath:y", "@p4", 33},
 
 		{"p3", "set", "title", "three", 30},
 		{"p3", "set", "camliNodeType", "typeA", 31}, // was typeA, now typeB
